@@ -330,6 +330,17 @@ def build_recipes():
         return (mef.plot_standard_curve, [np.array([10., 30., 100., 300.]), np.array([100., 646., 1704., 4827.]), o[1], o[0]],
                 dict(xscale='log', yscale='log', xlim=_own(c, [1.0, 1000.0])))
     add('mef.plot_standard_curve', rec_psc)
+
+    def rec_psc0(c, which):
+        # limits that start at or below zero on a log axis (replaced for drawing only); lists, arrays, and the list
+        # a sample hands out as a channel's range
+        o = mef.fit_beads_autofluorescence(np.array([10., 30., 100., 300.]), np.array([100., 646., 1704., 4827.]))
+        d = c.sample('int')
+        lim = dict(list=_own(c, [0.0, 1000.0]), array=_own(c, np.array([-5.0, 1000.0])), range=d.range('FL1-H'))[which]
+        return (mef.plot_standard_curve, [np.array([10., 30., 100., 300.]), np.array([100., 646., 1704., 4827.]), o[1], o[0]],
+                dict(xscale='log', yscale='log', xlim=lim, ylim=_own(c, [0.0, 1e5])))
+    for which in ('list', 'array', 'range'):
+        add('mef.plot_standard_curve', lambda c, w=which: rec_psc0(c, w))
     for variant in ('real', 'stub', 'plot', 'ndarray'):
         def rec_gt(c, variant=variant):
             b = c.beads()
@@ -395,6 +406,27 @@ def build_recipes():
                                                                                min_data=c.sample(k), max_data=c.sample(k),
                                                                                xscale='log', yscale=sc, num_bins=20,
                                                                                violin_kwargs=_own(c, dict(facecolor='gray')))))
+    # position 0 on a logarithmic position axis is drawn apart from the others
+    for kind in ('rfi', 'float', 'array'):
+        def rec_v0(c, k=kind):
+            if k == 'array':
+                data = _own(c, [np.array([3.0, 1.0, 2.0, 9.0, 4.0]), np.array([30.0, 10.0, 20.0, 90.0, 5.0])])
+                ch = None
+            else:
+                data = _own(c, [c.sample(k), c.sample(k)])
+                ch = 'FL1-H'
+            return (fplot.violin, [data], dict(channel=ch, positions=_own(c, [0.0, 10.0]), xscale='log', yscale='log', num_bins=20))
+        add('plot.violin', rec_v0)
+
+        def rec_vd0(c, k=kind):
+            if k == 'array':
+                data = _own(c, [np.array([3.0, 1.0, 2.0, 9.0, 4.0]), np.array([30.0, 10.0, 20.0, 90.0, 5.0]), np.array([7.0, 6.0, 5.0])])
+                ch = None
+            else:
+                data = _own(c, [c.sample(k), c.sample(k), c.sample(k)])
+                ch = 'FL1-H'
+            return (fplot.violin_dose_response, [data], dict(channel=ch, positions=_own(c, [0.0, 10.0, 100.0]), xscale='log', yscale='log', num_bins=20))
+        add('plot.violin_dose_response', rec_vd0)
     # ---- fixed recipes with stable names, used by the committed regression cases (not drawn by the strategy)
     add('__reg__gate.density2d_bins_list', lambda c: (gate.density2d, [c.sample('int')],
                                                        dict(channels=['FSC-H', 'SSC-H'], bins=_own(c, [8, 6]), gate_fraction=0.5, sigma=1.0)))
